@@ -5,6 +5,7 @@ import (
 	"fmt"
 	"math"
 	"math/rand"
+	"strconv"
 	"strings"
 	"time"
 
@@ -76,23 +77,30 @@ func relayout(q string, l layoutIn) string {
 		}
 		switch {
 		case c == '"':
-			// back-quote the literal when it is plain printable ASCII without escapes
+			// back-quote the literal when its VALUE is printable ASCII without a back quote (a raw literal has no escapes:
+			// quotes and backslashes of the value stand for themselves, also at its first and last position)
 			if l.Raw {
 				j := i + 1
-				plain := true
 				for j < len(q) && q[j] != '"' {
-					if q[j] == '\\' || q[j] == '`' || q[j] < 0x20 || q[j] > 0x7e {
-						plain = false
-					}
 					if q[j] == '\\' {
 						j++
 					}
 					j++
 				}
-				if plain && j < len(q) {
-					sb.WriteString("`" + q[i+1:j] + "`")
-					i = j
-					continue
+				if j < len(q) {
+					if val, err := strconv.Unquote(q[i : j+1]); err == nil {
+						plain := true
+						for k := 0; k < len(val); k++ {
+							if val[k] == '`' || val[k] < 0x20 || val[k] > 0x7e {
+								plain = false
+							}
+						}
+						if plain {
+							sb.WriteString("`" + val + "`")
+							i = j
+							continue
+						}
+					}
 				}
 			}
 			inStr = true
@@ -236,11 +244,31 @@ func mutate(in *parseIn, q string) (string, bool) {
 	case "trailing_junk":
 		return q + " }", true
 	case "unterminated_string":
-		i := strings.LastIndex(q, "\"")
-		if i < 0 {
+		// drop the closing delimiter of the last string literal (quoted or raw; a quote INSIDE a raw literal is not one)
+		last := -1
+		for i := 0; i < len(q); i++ {
+			switch q[i] {
+			case '#':
+				for i < len(q) && q[i] != '\n' {
+					i++
+				}
+			case '"':
+				for i++; i < len(q) && q[i] != '"'; i++ {
+					if q[i] == '\\' {
+						i++
+					}
+				}
+				last = i
+			case '`':
+				for i++; i < len(q) && q[i] != '`'; i++ {
+				}
+				last = i
+			}
+		}
+		if last < 0 || last >= len(q) {
 			return q, false
 		}
-		return q[:i] + q[i+1:], true
+		return q[:last] + q[last+1:], true
 	case "bad_regex":
 		if in.Kind != "log" {
 			return q, false
@@ -571,6 +599,18 @@ func (famParse) Gen(r *rand.Rand, n int, _ map[string]string) []any {
 			in.Kind = "metric"
 			_, e, _ := genBinOpCase(r)
 			in.Expr = &e
+		}
+		// literal values whose first or last byte is a quote or a backslash (both quoting styles must keep them)
+		edgy := []string{"\"error\"", "\"", "x\"", "\"x", "a\\b", "\\", "\"\"", "'\"'", "\\\""}
+		for k := range in.Stages {
+			if in.Stages[k].T == "line" && (in.Stages[k].Op == "eq" || in.Stages[k].Op == "neq") && r.Intn(3) == 0 {
+				in.Stages[k].Val = B(pick(r, edgy))
+			}
+		}
+		for k := range in.Sel {
+			if (in.Sel[k].Op == "eq" || in.Sel[k].Op == "neq") && r.Intn(3) == 0 {
+				in.Sel[k].Val = B(pick(r, edgy))
+			}
 		}
 		if r.Intn(4) == 0 {
 			in.Mut = parseMuts[r.Intn(len(parseMuts))]
